@@ -247,12 +247,13 @@ func (sv stringValue) Contains(substr Value) bool {
 	if !ok {
 		s = fmt.Sprint(substr.Interface())
 	}
-	return strings.Contains(sv.value.(string), s)
+	// (the value may be of a named string type)
+	return strings.Contains(reflect.ValueOf(sv.value).String(), s)
 }
 
 func (sv stringValue) PropertyValue(iv Value) Value {
 	if iv.Interface() == sizeKey {
-		return ValueOf(len(sv.value.(string)))
+		return ValueOf(len(reflect.ValueOf(sv.value).String()))
 	}
 	return nilValue
 }
